@@ -88,10 +88,10 @@ class ProxiedCircuit(Circuit):
             block["ID"] = reverse_injections.get_original_id(packet_id)
             new_blocks.append(block)
 
+        message["Packets"] = new_blocks
         # Sending a PacketAck with nothing in it would be suspicious
         if not new_blocks:
             return False
-        message["Packets"] = new_blocks
         return True
 
     def _rewrite_start_ping_check(self, message: Message, fwd_injections):
